@@ -1,6 +1,6 @@
 (** C07 — render/macro scopes are isolated and block scopes do not leak.
     Model: Core/Render.v (tied to /repo by the C01 and C07 correspondence runs). *)
-From LQ Require Import Core.Render Proofs.Render_proofs Proofs.Render_lambda.
+From LQ Require Import Core.Render Proofs.Render_proofs Proofs.Render_control Proofs.Render_lambda.
 
 (** Every node - for, with, include, render, call, capture, if, case ... -
     leaves the stack of block scopes, the loop stack, the current template
@@ -74,3 +74,23 @@ Theorem c07_lambda_parameter_shadows_only_inside : forall c p ip it i,
   lookup (set_scopes c (lam_scope p ip it i :: scopes c)) p = Some it.
 Proof. exact lambda_parameter_shadows. Qed.
 Print Assumptions c07_lambda_parameter_shadows_only_inside.
+
+(** Non-interference for macros: what a `call` produces depends on the caller
+    only through the macro's definition, the values of the arguments (and of the
+    defaults of omitted parameters), the root globals, the copy depth, the depth
+    limit and the template name - not on the caller's locals, counters, loop
+    variables, block scopes, cycles or other macros. *)
+Theorem c07_call_isolated : forall g ld fuel name args kwargs c1 c2 b,
+  assoc name (macros c1) = assoc name (macros c2) ->
+  root_globals c1 = root_globals c2 ->
+  copy_depth c1 = copy_depth c2 ->
+  dlimit c1 = dlimit c2 ->
+  tname c1 = tname c2 ->
+  (forall m, assoc name (macros c2) = Some m ->
+     eval_bound (eval fuel) c1 (macro_bound m args kwargs) =
+     eval_bound (eval fuel) c2 (macro_bound m args kwargs)) ->
+  let r1 := render g ld (S fuel) (NCall name args kwargs) c1 b in
+  let r2 := render g ld (S fuel) (NCall name args kwargs) c2 b in
+  st r1 = st r2 /\ bf r1 = bf r2.
+Proof. exact call_tag_isolated. Qed.
+Print Assumptions c07_call_isolated.
